@@ -172,7 +172,7 @@ def tlc(module, cfg, workers=8, simulate=None, depth=None, seed=None, env=None, 
         m = re.match(r"Error: Invariant (\S+) is violated", ln)
         if m:
             r.violated = m.group(1)
-        m = re.match(r"Error: (Action property|Temporal properties|Property) ?(\S*)", ln)
+        m = re.match(r"Error: (Action property|Temporal propert(?:y|ies)|Property) ?(\S*)", ln)
         if m and r.violated is None:
             r.violated = m.group(2) or "temporal"
         if ln.startswith('"') and ln.endswith('"'):
